@@ -2,7 +2,7 @@ import os, re
 from vlib import core
 from vlib.plan import Phase, run_phases
 
-RULE = ("scenario = one mini-topology around one node under test, drawn from 14 classes: queue_node (7 consumer kinds: accepting / rejecting / two rejecting "
+RULE = ("scenario = one mini-topology around one node under test, drawn from 15 classes: queue_node (7 consumer kinds: accepting / rejecting / two rejecting "
         "serial sinks, one or two try_get threads, a reserving thread that releases or consumes, reserving + try_get threads), sequencer_node (numbers dealt "
         "to 1-4 producers in random orders / random repeating numbers plus a filling pass / every producer puts every number; accepting, rejecting or "
         "late-attached sink), priority_queue_node (first sink invocation blocks until all puts are done / rejecting sink with delays / edge made after all "
@@ -10,7 +10,7 @@ RULE = ("scenario = one mini-topology around one node under test, drawn from 14 
         "(second reserving join, try_get thread, rejecting function_node), reserving join over queue_nodes, queueing join (2-4 ports, 1-3 producers per "
         "port), key_matching join (2-3 ports, keys missing at some ports, keys repeated at a port), limiter_node (threshold 1/2/3/8; queue->limiter, two "
         "queues->limiter, direct puts, queue + direct puts; decrement from the sink body, from a lightweight sink inside the limiter's own try_put, through "
-        "an edge, from external threads; accepting / rejecting sink), overwrite_node and write_once_node with 1-2 present and 0-2 late successors, "
+        "an edge, from external threads; accepting / rejecting sink), limiter_node<T,int> acknowledged in batches of 1..threshold (integral decrementer: from inside a lightweight sink, i.e. inside the limiter's own put, from a queueing sink, from an external thread), overwrite_node and write_once_node with 1-2 present and 0-2 late successors, "
         "broadcast_node with 1-4 successors of three kinds, split_node, indexer_node, and the item_buffer ring driven through "
         "try_put/try_get/try_reserve/try_release/try_consume (one thread against an exact model incl. wrap and grow with a reservation outstanding, and "
         "2-5 threads). 1-4 external producer threads per port (a quarter of them put through graph tasks), 1-120 uniquely numbered messages each, serial "
@@ -89,6 +89,8 @@ def run(tier, seed, scale):
            ("resv_competitor_items", 10000, "items taken by a competitor of a reserving join"), ("resv_tuples", 50000, "reserving-join tuples"),
            ("jq_tuples", 50000, "queueing-join tuples"), ("jk_tuples", 20000, "key-matching tuples"), ("jk_unmatched", 2000, "unmatched key-matching messages"),
            ("lim_inline_decs", 20000, "limiter decrements issued from inside the sink body (early-decrement path)"), ("lim_ext_decs", 10000, "limiter decrements from external threads"),
+           ("limb_multi_batches", 5000, "limiter_node<T,int>: decrements with delta >= 2"), ("limb_inline_batches", 3000, "limiter_node<T,int>: batch decrements sent from inside the limiter's own put"),
+           ("limb_at_threshold", 5000, "limiter_node<T,int>: sink entries at a full threshold"),
            ("lim_at_threshold", 20000, "sink entries at a full threshold"), ("lim_rejected_puts", 2000, "direct limiter puts rejected at the threshold"),
            ("ow_late", 2000, "late successors of overwrite/write_once nodes"), ("wo_rejected", 10000, "write_once puts after the first"),
            ("buffer_grows_with_reservation_outstanding", 300, "item_buffer grows while a reservation was outstanding"), ("ring_wraps", 5000, "ring wrap-arounds"),
@@ -113,6 +115,7 @@ def run(tier, seed, scale):
         "limiter_decrements_from_inside_the_sink_body(early path)": st.get("lim_inline_decs", 0),
         "limiter_external_decrements": st.get("lim_ext_decs", 0),
         "limiter_sink_entries_at_full_threshold": st.get("lim_at_threshold", 0),
+        "limiter_int_decrementer[delivered, batches, batches with delta>=2, batches from inside the limiter's put, sink entries at full threshold]": [st.get("limb_delivered", 0), st.get("limb_batches", 0), st.get("limb_multi_batches", 0), st.get("limb_inline_batches", 0), st.get("limb_at_threshold", 0)],
         "limiter_direct_puts_rejected": st.get("lim_rejected_puts", 0),
         "join_reserve_all_failures_and_rejected_tuples(hook 185)": hn(185),
         "join_reserve[tuple_rejected_by_successor, port_reserved_then_lower_port_failed...]": hh(185)[:5],
